@@ -475,6 +475,12 @@ func (p *Program) replayModel(fr *FuncResult, model map[string]string, work stri
 	var argExprs []string
 	for i, prm := range fn.Params {
 		nm := fr.ParamNames[i]
+		if be := boundArgExpr(fr.Contract, nm, fn.Pkg.Pkg.Name()); be != "" {
+			// instance contract: the parameter is the value of the bind expression itself
+			me.desc = append(me.desc, nm+"="+be)
+			argExprs = append(argExprs, be)
+			continue
+		}
 		e, ok := me.goExpr(nm, ex.ParamVals[nm], prm.Type())
 		if !ok {
 			rr.Error = "cannot construct argument " + nm + " from the model"
